@@ -65,10 +65,11 @@ func verifInstallTLSModel(m *verifTLSModel) {
 	})
 	verifapi.Redirect("crypto/x509.NewCertPool", func() *x509.CertPool { return new(x509.CertPool) })
 	verifapi.Redirect("(*crypto/x509.CertPool).AddCert", func(p *x509.CertPool, c *x509.Certificate) { m.pools[p] = append(m.pools[p], c) })
-	verifapi.Redirect("crypto/sha256.Sum224", func(data []byte) [28]byte { return verifD224 })
-	verifapi.Redirect("crypto/sha256.Sum256", func(data []byte) [32]byte { return verifD256 })
-	verifapi.Redirect("crypto/sha512.Sum384", func(data []byte) [48]byte { return verifD384 })
-	verifapi.Redirect("crypto/sha512.Sum512", func(data []byte) [64]byte { return verifD512 })
+	// digests are a function of the certificate: byte 1 of the digest is the certificate's index byte
+	verifapi.Redirect("crypto/sha256.Sum224", func(data []byte) [28]byte { d := verifD224; d[1] = data[0]; return d })
+	verifapi.Redirect("crypto/sha256.Sum256", func(data []byte) [32]byte { d := verifD256; d[1] = data[0]; return d })
+	verifapi.Redirect("crypto/sha512.Sum384", func(data []byte) [48]byte { d := verifD384; d[1] = data[0]; return d })
+	verifapi.Redirect("crypto/sha512.Sum512", func(data []byte) [64]byte { d := verifD512; d[1] = data[0]; return d })
 	verifapi.Redirect("github.com/ansible/receptor/pkg/utils.ReceptorNames", func(exts []pkix.Extension) ([]string, error) {
 		if m.namesErr {
 			return nil, fmt.Errorf("asn1: structure error")
@@ -310,4 +311,34 @@ func Verif_C09_listener_peer_identity() {
 	cancel()
 	_ = li.Close()
 	verifapi.Quiesce()
+}
+
+// Verif_C09_verifier_reuse: ONE verifier instance (as a listener or a redialling client keeps it)
+// checks two different peers one after the other, both with chain-valid, correctly named certificates
+// whose digests differ; the pin is arbitrary. Each verdict depends only on that peer's own certificate:
+// accepted iff the pin equals ITS digest, in either order.
+func Verif_C09_verifier_reuse() {
+	m := &verifTLSModel{}
+	verifInstallTLSModel(m)
+	m.certs = []verifCertSpec{
+		{parses: true, cert: &x509.Certificate{Raw: []byte{0, 0xAA}}},
+		{parses: true, cert: &x509.Certificate{Raw: []byte{1, 0xBB}}},
+	}
+	m.names = []string{"ex"}
+	pin := verifapi.Bytes(32)
+	d0, d1 := verifD256, verifD256
+	d0[1], d1[1] = 0, 1
+	role := []VerifyType{VerifyServer, VerifyClient}[verifapi.Choose(2)]
+	fn := ReceptorVerifyFunc(&tls.Config{RootCAs: new(x509.CertPool), ClientCAs: new(x509.CertPool)}, [][]byte{pin}, "ex", ExpectedHostnameTypeReceptor, role, logger.NewReceptorLogger(""))
+	first := verifapi.Choose(2)
+	order := []int{first, 1 - first, first}
+	for _, i := range order {
+		err := fn([][]byte{{byte(i), 0}}, nil)
+		want := verifapi.SameBytes(pin, d0[:])
+		if i == 1 {
+			want = verifapi.SameBytes(pin, d1[:])
+		}
+		verifapi.Assert("verdict-depends-only-on-the-presented-certificate", (err == nil) == want)
+	}
+	verifapi.Cover("three-handshakes")
 }
